@@ -204,6 +204,52 @@ def stepLine (s : DState) (w : List String) : DState × String :=
       let vers := batch.map (·.version)
       let dom := batch.all (fun p => p.wf) && !batch.isEmpty && vers.all (· == vers.headD 0)
       (s, if dom then s!"chk C01={P_C01 (nat! dev) (nat! stream) batch dec}" else "chk C01=na")
+  | "bld" :: k :: prior :: args =>
+    let hdr : Nat := if k == "can" || k == "canfd" || k == "analog" then 16 else if k == "lin" then 8 else if k == "eth" then 6
+                     else if k == "cm" then 26 else if k == "if" then 36 else 0
+    let dflt : Bytes := if k == "can" || k == "canfd" then canDefault else if k == "lin" then linDefault else if k == "eth" then ethDefault
+                        else if k == "analog" then analogDefault else if k == "cm" then cmDefault else ifDefault
+    let ty : Nat := if k == "can" then tyCan else if k == "canfd" then tyCanFd else if k == "lin" then tyLin else if k == "eth" then tyEth
+                    else if k == "analog" then tyAnalog else if k == "cm" then tyCm else tyIf
+    let maxLen : Nat := if k == "can" || k == "canfd" || k == "lin" then 255 else 65535
+    match (if prior == "default" then some dflt else parseBytes prior),
+          (args.map parseBytes).foldr (fun o acc => match o, acc with | some b, some l => some (b :: l) | _, _ => none) (some []) with
+    | some b0, some as =>
+      if hdr = 0 || b0.length < hdr || as.isEmpty then (s, "bad-op")
+      else
+        let rec goB (b : Bytes) : List Bytes → Option Bytes
+          | [] => some b
+          | l =>
+            if k == "cm" then
+              match l with
+              | a :: b2 :: c :: d :: v :: rest => goB (cmSetData b a b2 c d v) rest
+              | _ => none
+            else if k == "if" then
+              match l with
+              | ids :: v :: rest => if ids.length > 65534 then none else goB (ifSetData b ids v) rest
+              | _ => none
+            else
+              match l with
+              | d :: rest =>
+                if d.length > maxLen && k != "analog" then none
+                else goB (if k == "can" || k == "canfd" then canSetData b d else if k == "lin" then linSetData b d
+                         else if k == "eth" then ethSetData b d else analogSetData b d) rest
+              | [] => some b
+        match goB b0 as with
+        | none => (s, "bad-op")
+        | some o =>
+          let valid := match kindValid k with | some v => v o | none => false
+          let views := if valid then
+              match (kindAccess k).bind (fun a => a o) with
+              | some vs => String.join (vs.map fun x => " " ++ showView x)
+              | none => " OOB"
+            else ""
+          let pk := if o.length < 65536 then
+              let pl := create ty o
+              s!" pkt={toHex (beEnc 4 pl.ty)}:{if pl.isValid then 1 else 0}"
+            else ""
+          (s, "raw=" ++ showBytes o ++ s!" valid={if valid then 1 else 0}" ++ views ++ pk)
+    | _, _ => (s, "bad-op")
   | ["val", k, hx] =>
     match kindValid k, kindAccess k, parseBytes hx with
     | some v, some a, some b =>
